@@ -279,4 +279,54 @@ example :
     (astep (ops.foldl lstep { g := none, granted := 0, spent := 0 }).g (.spend 1 1)).2 = false := by
   decide
 
+/-! ### one call naming several message types -/
+
+/-- a successful call naming several message types gives every named slot exactly what the same call naming that
+    type alone would have given it -/
+theorem many_is_each (gs : List (Option Grant)) (op : AOp) (h : (astepMany gs op).2 = true) :
+    (astepMany gs op).1 = gs.map (fun g => (astep g op).1) := by
+  unfold astepMany at h ⊢
+  simp only at h ⊢
+  split
+  · simp [List.map_map]
+  · rename_i hn; simp [hn] at h
+
+/-- a failed call changes no slot -/
+theorem many_failed_unchanged (gs : List (Option Grant)) (op : AOp) (h : (astepMany gs op).2 = false) :
+    (astepMany gs op).1 = gs := by
+  unfold astepMany at h ⊢
+  simp only at h ⊢
+  split
+  · rename_i hy; simp [hy] at h
+  · rfl
+
+/-- `decreaseAllowance` over several limited grants: every limit goes down by the amount named, whatever the order
+    and whatever the other limits are -/
+theorem decrease_many_exact (gs : List Grant) (x : Nat) (ls : List Nat)
+    (hl : gs.map (·.limit) = ls.map some) (hx : ∀ l ∈ ls, x ≤ l) :
+    (astepMany (gs.map some) (.decrease x)).2 = true ∧
+    (astepMany (gs.map some) (.decrease x)).1 = gs.map (fun g => some { g with limit := g.limit.map (· - x) }) := by
+  have hstep : ∀ g ∈ gs, astep (some g) (.decrease x) = (some { g with limit := g.limit.map (· - x) }, true) := by
+    intro g hg
+    have : g.limit ∈ gs.map (·.limit) := List.mem_map_of_mem hg
+    rw [hl] at this
+    obtain ⟨l, hlm, hle⟩ := List.mem_map.mp this
+    have hxl := hx l hlm
+    simp only [astep, ← hle]
+    have : ¬ l < x := by omega
+    simp [this]
+  have hall : ((gs.map some).map (fun g => astep g (.decrease x))).all (·.2) = true := by
+    simp only [List.map_map, List.all_map, List.all_eq_true]
+    intro g hg
+    simp [Function.comp, hstep g hg]
+  unfold astepMany
+  simp only [hall, if_true, true_and]
+  simp only [List.map_map]
+  apply List.map_congr_left
+  intro g hg
+  simp [Function.comp, hstep g hg]
+
+example : (astepMany [some { limit := some 4, allow := [1] }, some { limit := some 4, allow := [1] }] (.decrease 3)).1
+    = [some { limit := some 1, allow := [1] }, some { limit := some 1, allow := [1] }] := by decide
+
 end Haqq.Authz
